@@ -169,6 +169,19 @@ def main(tier, seed):
     rep.part("identifier-orders", permutations=len(perms), distinct_behaviours=len(digests))
     rep.cov["evaluations"] += len(perms)
     rep.add_states({("perm", p) for p in perms})
+    # (a') a long run twice in one interpreter (sizes follow the constants of the simulator / executor sources, mc/scale.py)
+    from ..families import f6 as _f6
+    for item in _f6.space("bulk", tier)[-1:]:
+        sc_b = _f6.build(item)
+        outs = []
+        for _ in range(2):
+            w_b, r_b, st_b, exc_b = _f6.run(sc_b)
+            outs.append((None if st_b is None else json.dumps(st_b.to_dict(), sort_keys=True, default=str), repr(exc_b), len(r_b.results)))
+        rep.cov["evaluations"] += 2
+        if outs[0] != outs[1]:
+            rep.add_violations([Violation("bulk-twice", "run-depends-on-history", f"{len(sc_b['pipelines'])} pipelines, the same run twice in one process: statistics {outs[0][0][:300]} vs {outs[1][0][:300]}",
+                                          dict(name=sc_b["name"], pipelines=len(sc_b["pipelines"]), what="bulk-twice"), [], family="C07k")])
+        rep.part("bulk-twice", pipelines=len(sc_b["pipelines"]))
     # (c) workload independence
     K = 32 if q else 256
     seeds = list(range(seed, seed + K))
@@ -224,6 +237,16 @@ def replay(rec):
         same = o["log"] == b["log"] and o["stats"] == b["stats"]
         print("same" if same else first_diff(b["log"], o["log"]))
         return 0 if same else 1
+    if fam == "C07k":
+        from ..families import f6 as _f6
+        item = _f6.space("bulk", "quick")[-1]
+        sc_b = _f6.build(item)
+        outs = []
+        for _ in range(2):
+            w_b, r_b, st_b, exc_b = _f6.run(sc_b)
+            outs.append(None if st_b is None else json.dumps(st_b.to_dict(), sort_keys=True, default=str))
+        print("same" if outs[0] == outs[1] else f"differ: {outs[0][:300]} vs {outs[1][:300]}")
+        return 0 if outs[0] == outs[1] else 1
     if fam == "C07b":
         a = child(dict(history=[sc["config"]], ids=sc["ids"]), sc["hashseed"])[0]
         b = child(dict(history=[sc["config"]]))[0]
